@@ -31,11 +31,13 @@ type c06Obs struct {
 	attrs     map[string][]bgp.PathAttributeInterface // attributes of routes in state c06New
 	unnamed   []string                                // prefixes touched although the message does not name them
 	notes     []string
+	dead      bool         // pipelined sessions: a well-formed UPDATE written after the message under test was never processed
 	kept      map[int]bool // set by derive: index of a fault whose offending attribute is carried by an installed route
 }
 
 // c06Case is one message with what was injected into it.
 type c06Case struct {
+	pipe    *c06Pipe // layer 3: how the message reaches gobgp (nil: sent alone on a settled session)
 	layer   int
 	sess    c06Sess
 	base    int
@@ -67,6 +69,9 @@ func (c *c06Case) present() bool {
 func (c *c06Case) witness(idx int, o *c06Obs) map[string]any {
 	w := map[string]any{"case": idx, "layer": c.layer, "session": c.sess.String(), "add_path": c.sess.addPath,
 		"base": c06Bases[c.base].name, "faults": c.faultIDs(), "positions": fmt.Sprint(c.pos), "update_hex": c06Hex(c.raw)}
+	if c.pipe != nil {
+		w["pipelined"] = fmt.Sprintf("%+v", *c.pipe)
+	}
 	if o != nil {
 		st := []string{}
 		for k, v := range o.state {
@@ -160,6 +165,10 @@ func c06AttrVal(a bgp.PathAttributeInterface) []byte {
 func (c *c06Case) derive(o *c06Obs) c06Reaction {
 	if o.reset {
 		return c06Reaction{classes: c06R(c06Reset), code: o.code, sub: o.sub}
+	}
+	if o.dead {
+		o.notes = append(o.notes, "no NOTIFICATION, session still established, but the well-formed UPDATE written right behind the message was never processed: the message went unanswered and the receive side is dead")
+		return c06Reaction{classes: c06R(c06Stale)}
 	}
 	ann, wd := c.required()
 	for _, k := range wd {
@@ -302,6 +311,12 @@ func (c *c06Case) judge(rec *vlib.Rec, idx int, o *c06Obs) c06Reaction {
 	if c.sess.taw {
 		taw = 1
 	}
+	if o.dead && !o.reset {
+		// independent of which fault was injected: keyed on its own
+		rec.Violation(fmt.Sprintf("c06:pipelined:unanswered:%s:taw%d", c.sess.pt, taw),
+			fmt.Sprintf("layer %d, %s session, fault %s in base %s, delivery %+v: RFC 7606/4271 allow %s, but the message was never answered: %s", c.layer, c.sess, c.faultIDs(), c06Bases[c.base].name, *c.pipe, allowed, strings.Join(o.notes, "; ")), c.witness(idx, o))
+		return got
+	}
 	rec.Count(fmt.Sprintf("l%d_react_%s", c.layer, got.strongest()), 1)
 	rec.Count(fmt.Sprintf("l%d_react_%s_%s_taw%d", c.layer, got.strongest(), c.sess.pt, taw), 1)
 	if len(c.faults) == 1 {
@@ -351,7 +366,7 @@ func (c *c06Case) judgeBase(rec *vlib.Rec, idx int, o *c06Obs, variant string) {
 			if a.typ == c06TMPUnreach || a.typ == c06TMPReach || a.typ == c06TNextHop {
 				continue
 			}
-			if c.sess.pt != c06IBGP && c.layer == 2 && a.typ == c06TLocalPref {
+			if c.sess.pt != c06IBGP && c.layer >= 2 && a.typ == c06TLocalPref {
 				continue // gobgp keeps LOCAL_PREF of internal sessions only
 			}
 			if c06HasType(as, int(a.typ)) == 0 {
